@@ -181,7 +181,7 @@ class FlowJax(Flow):
         ]
 
         # rebuild template flow
-        kwargs.pop("device")
+        kwargs.pop("device", None)
         flow_template = get_flow(key=jrandom.key(0), dims=obj.dims, **kwargs)
         arrays_template, static = eqx.partition(flow_template, eqx.is_array)
 
